@@ -149,9 +149,22 @@ theorem nc_map_canonComment (l : List Item) : nc (l.map canonComment) = nc l := 
   | cons x rest ih => simp [ih, isComment_canonComment]
 
 /-- normalisation never drops or adds a comment -/
+theorem nc_skeleton (l : List Item) : nc (skeleton l) = nc l := by
+  induction l with
+  | nil => rfl
+  | cons x rest ih =>
+    cases x with
+    | punct t =>
+      by_cases h : t = "="
+      · simp [skeleton, h, ih, Item.isComment]
+      · simp [skeleton, h, ih, Item.isComment]
+    | keyword t => simp [skeleton, ih, Item.isComment]
+    | content t => simp [skeleton, ih, Item.isComment]
+    | comment k t => simp [skeleton, ih, Item.isComment]
+
 theorem nc_normalize (l : List Item) : nc (normalize l) = nc l := by
   unfold normalize
-  rw [nc_map_canonComment, nc_essential, nc_collapsePuns, nc_markUnits]
+  rw [nc_map_canonComment, nc_essential, nc_collapsePuns, nc_skeleton, nc_markUnits]
 
 /-- streams with different numbers of comments are never accepted -/
 theorem accounts_ne_ok_of_nc_ne (inp out : List Item) (h : nc inp ≠ nc out) :
